@@ -12,6 +12,7 @@ package main
 import (
 	"fmt"
 	"go/ast"
+	"go/token"
 	"strings"
 )
 
@@ -48,9 +49,11 @@ func xtimeRet(sel string) func(c *Ctx, s *Site) (string, error) {
 	}
 }
 
-// xtimeBracket: within the statement list at sel (flattened, see stmtList) `open` occurs, `close`
-// occurs after it, and every text of inner occurs strictly between the first `open` and the last
-// `close`. Used for "this critical section is held under the mutex".
+// xtimeBracket: the statement list at sel (flattened, see stmtList) contains `open` exactly once and
+// `close` exactly once, `open` before `close`; every text of inner occurs as a whole statement
+// exactly once and strictly between them; and no statement between them leaves the section or
+// defers/forks work out of it (`return`, `go`, `defer`, `goto`, `break`, `continue`). Used for "this
+// critical section is held under the mutex".
 func xtimeBracket(sel, open, close string, inner ...string) func(c *Ctx, s *Site) (string, error) {
 	return func(c *Ctx, s *Site) (string, error) {
 		fd, err := c.FindFunc(s.Pkg, s.Func)
@@ -65,32 +68,398 @@ func xtimeBracket(sel, open, close string, inner ...string) func(c *Ctx, s *Site
 			}
 		}
 		l := c.stmtList(scope)
-		first, last := -1, -1
-		for i, x := range l {
-			if stripSpace(x) == stripSpace(open) && first < 0 {
-				first = i
+		idx := func(want string) (int, int) {
+			at, n := -1, 0
+			for i, x := range l {
+				if stripSpace(x) == stripSpace(want) {
+					at = i
+					n++
+				}
 			}
-			if stripSpace(x) == stripSpace(close) {
-				last = i
+			return at, n
+		}
+		first, nOpen := idx(open)
+		last, nClose := idx(close)
+		ok := nOpen == 1 && nClose == 1 && first < last
+		for _, want := range inner {
+			at, n := idx(want)
+			if n != 1 || !(at > first && at < last) {
+				ok = false
 			}
 		}
-		ok := first >= 0 && last > first
-		for _, want := range inner {
-			found := false
-			for i, x := range l {
-				if strings.Contains(stripSpace(x), stripSpace(want)) {
-					found = true
-					if !(i > first && i < last) {
+		if ok {
+			for _, x := range l[first+1 : last] {
+				for _, kw := range []string{"return", "go ", "defer ", "goto ", "break", "continue"} {
+					if strings.HasPrefix(x, kw) {
 						ok = false
 					}
 				}
 			}
-			if !found {
-				ok = false
-			}
 		}
 		return fmt.Sprintf("/-- in `%s` %s: `%s` … %v … `%s` -/\ndef %s : Bool := %v\n", s.Func, sel, open, inner, close, s.Name, ok), nil
 	}
+}
+
+// ---------------------------------------------------------------------------------------------
+// schedule(): the arithmetic that leads from (t.d, t.jitter, the random draw) to the duration handed
+// to time.AfterFunc, translated with Go's fixed-width semantics: every + - * / of int64 operands
+// (time.Duration is an int64) is rendered `wrap64 (…)`, of uint64 operands `wrapU64 (…)`, conversions
+// between the two likewise; untyped constant arithmetic is exact (as in Go).
+//
+// Accepted shape of the body of schedule (anything else is an extraction error = broken tie):
+//
+//	if t.timer != nil { t.timer.Stop() }          (own facts: schedStopsOld)
+//	<arithmetic>*                                 (translated here)
+//	t.gen++                                       (schedBumpsGen)
+//	gen := t.gen                                  (schedCapturesGen)
+//	t.timer = time.AfterFunc(<expr>, func() {…})  (<expr> translated here; the closure: cb* facts)
+//
+// <arithmetic> is one of
+//
+//	var x uint64 | var x int64 | var x time.Duration
+//	x := e | x = e
+//	if c { x = e }  |  if c { A } else { B }      with A, B one statement each: `x = e` or
+//	for x = rand.Uint64(); c; x = rand.Uint64() { }   (rejection sampling, empty body)
+//
+// and e, c are built from t.d, t.jitter, locals, integer literals, math.MaxInt64, + - * /,
+// comparisons, the conversions uint64() int64() time.Duration(), and at most one rand.Int63n(e).
+// The value delivered by the random source (the result of rand.Int63n, or the accepted result of
+// rand.Uint64) is the parameter `rho` of the emitted `schedNext`.
+
+type xtTy int
+
+const (
+	xtConst xtTy = iota // untyped integer constant
+	xtI64
+	xtU64
+	xtBool
+)
+
+func (t xtTy) String() string { return [...]string{"untyped const", "int64", "uint64", "bool"}[t] }
+
+type xtArith struct {
+	c     *Ctx
+	vars  map[string]string // Go text -> Lean term
+	types map[string]xtTy
+	path  string // Lean Bool term: condition of the path being translated
+	// what was found
+	int63nPath, int63nBound string
+	uint64Path, rejects     string
+	randCalls               []string
+}
+
+func xtUnify(a, b xtTy) (xtTy, error) {
+	switch {
+	case a == xtBool || b == xtBool:
+		return 0, fmt.Errorf("arithmetic/comparison on bool")
+	case a == xtConst:
+		return b, nil
+	case b == xtConst || a == b:
+		return a, nil
+	}
+	return 0, fmt.Errorf("mixed operand types %s and %s", a, b)
+}
+
+func xtWrap(t xtTy, term string) string {
+	switch t {
+	case xtI64:
+		return "(wrap64 " + term + ")"
+	case xtU64:
+		return "(wrapU64 " + term + ")"
+	}
+	return term
+}
+
+func (e *xtArith) tr(x ast.Expr) (string, xtTy, error) {
+	txt := e.c.Text(x)
+	if v, ok := e.vars[txt]; ok {
+		return v, e.types[txt], nil
+	}
+	switch n := x.(type) {
+	case *ast.ParenExpr:
+		return e.tr(n.X)
+	case *ast.BasicLit:
+		if n.Kind != token.INT {
+			return "", 0, fmt.Errorf("unsupported literal %s", txt)
+		}
+		return "(" + n.Value + " : Int)", xtConst, nil
+	case *ast.BinaryExpr:
+		a, ta, err := e.tr(n.X)
+		if err != nil {
+			return "", 0, err
+		}
+		b, tb, err := e.tr(n.Y)
+		if err != nil {
+			return "", 0, err
+		}
+		t, err := xtUnify(ta, tb)
+		if err != nil {
+			return "", 0, fmt.Errorf("%s: %v", txt, err)
+		}
+		switch n.Op {
+		case token.ADD, token.SUB, token.MUL:
+			return xtWrap(t, "("+a+" "+n.Op.String()+" "+b+")"), t, nil
+		case token.QUO:
+			return xtWrap(t, "(Int.tdiv "+a+" "+b+")"), t, nil
+		case token.LSS, token.LEQ, token.GTR, token.GEQ, token.EQL:
+			lop := map[token.Token]string{token.LSS: "<", token.LEQ: "≤", token.GTR: ">", token.GEQ: "≥", token.EQL: "="}[n.Op]
+			return "(decide (" + a + " " + lop + " " + b + "))", xtBool, nil
+		}
+		return "", 0, fmt.Errorf("unsupported operator %s in %s", n.Op, txt)
+	case *ast.CallExpr:
+		fn := e.c.Text(n.Fun)
+		switch fn {
+		case "uint64", "int64", "time.Duration":
+			if len(n.Args) != 1 {
+				return "", 0, fmt.Errorf("bad conversion %s", txt)
+			}
+			a, ta, err := e.tr(n.Args[0])
+			if err != nil {
+				return "", 0, err
+			}
+			to := xtI64
+			if fn == "uint64" {
+				to = xtU64
+			}
+			if ta == xtBool {
+				return "", 0, fmt.Errorf("conversion of bool %s", txt)
+			}
+			if ta == to || ta == xtConst { // same representation / a constant the compiler checked to fit
+				return a, to, nil
+			}
+			return xtWrap(to, a), to, nil
+		case "rand.Int63n":
+			if len(n.Args) != 1 || e.int63nPath != "" {
+				return "", 0, fmt.Errorf("more than one rand.Int63n call, or bad arguments: %s", txt)
+			}
+			b, tb, err := e.tr(n.Args[0])
+			if err != nil {
+				return "", 0, err
+			}
+			if tb != xtI64 && tb != xtConst {
+				return "", 0, fmt.Errorf("rand.Int63n argument is %s", tb)
+			}
+			e.int63nPath, e.int63nBound = e.path, b
+			e.randCalls = append(e.randCalls, fn)
+			return "(int63n rho " + b + ")", xtI64, nil
+		}
+		return "", 0, fmt.Errorf("unmapped call %s", txt)
+	}
+	return "", 0, fmt.Errorf("unsupported expression %s", txt)
+}
+
+// isRandUint64Assign: `x = rand.Uint64()`
+func (e *xtArith) isRandUint64Assign(st ast.Stmt) (string, bool) {
+	a, ok := st.(*ast.AssignStmt)
+	if !ok || a.Tok != token.ASSIGN || len(a.Lhs) != 1 || len(a.Rhs) != 1 {
+		return "", false
+	}
+	id, ok := a.Lhs[0].(*ast.Ident)
+	if !ok || e.c.Text(a.Rhs[0]) != "rand.Uint64()" {
+		return "", false
+	}
+	return id.Name, true
+}
+
+// branch translates the single statement of an if-branch: the variable it assigns and its new value.
+func (e *xtArith) branch(list []ast.Stmt, cond string) (string, string, error) {
+	if len(list) != 1 {
+		return "", "", fmt.Errorf("an if-branch of schedule's arithmetic must be a single statement")
+	}
+	saved := e.path
+	e.path = cond
+	defer func() { e.path = saved }()
+	switch st := list[0].(type) {
+	case *ast.AssignStmt:
+		id, ok := st.Lhs[0].(*ast.Ident)
+		if !ok || st.Tok != token.ASSIGN || len(st.Lhs) != 1 || len(st.Rhs) != 1 {
+			return "", "", fmt.Errorf("unsupported assignment %s", e.c.Pretty(st))
+		}
+		want, declared := e.types[id.Name]
+		if !declared {
+			return "", "", fmt.Errorf("assignment to undeclared %s", id.Name)
+		}
+		v, t, err := e.tr(st.Rhs[0])
+		if err != nil {
+			return "", "", err
+		}
+		if t != want && t != xtConst {
+			return "", "", fmt.Errorf("%s: %s assigned to %s variable", e.c.Pretty(st), t, want)
+		}
+		return id.Name, v, nil
+	case *ast.ForStmt:
+		x, ok1 := e.isRandUint64Assign(st.Init)
+		y, ok2 := e.isRandUint64Assign(st.Post)
+		if !ok1 || !ok2 || x != y || st.Cond == nil || len(st.Body.List) != 0 || e.types[x] != xtU64 || e.uint64Path != "" {
+			return "", "", fmt.Errorf("unsupported loop %s", e.c.Pretty(st))
+		}
+		// the loop condition speaks about the value just drawn
+		old := e.vars[x]
+		e.vars[x] = "r"
+		c, t, err := e.tr(st.Cond)
+		e.vars[x] = old
+		if err != nil {
+			return "", "", err
+		}
+		if t != xtBool {
+			return "", "", fmt.Errorf("loop condition is not a bool")
+		}
+		e.uint64Path, e.rejects = e.path, c
+		e.randCalls = append(e.randCalls, "rand.Uint64", "rand.Uint64")
+		return x, "rho", nil
+	}
+	return "", "", fmt.Errorf("unsupported statement %s", e.c.Pretty(list[0]))
+}
+
+func xtimeSchedArith(c *Ctx, s *Site) (string, error) {
+	fd, err := c.FindFunc(s.Pkg, s.Func)
+	if err != nil {
+		return "", err
+	}
+	body := fd.Body.List
+	n := len(body)
+	if n < 4 || c.Text(body[0]) != "ift.timer!=nil{t.timer.Stop()}" || c.Text(body[n-3]) != "t.gen++" || c.Text(body[n-2]) != "gen:=t.gen" {
+		return "", fmt.Errorf("schedule does not have the shape `if t.timer != nil { t.timer.Stop() }; …; t.gen++; gen := t.gen; t.timer = time.AfterFunc(…)`")
+	}
+	last, ok := body[n-1].(*ast.AssignStmt)
+	var after *ast.CallExpr
+	if ok && len(last.Lhs) == 1 && len(last.Rhs) == 1 && last.Tok == token.ASSIGN && c.Text(last.Lhs[0]) == "t.timer" {
+		after, _ = last.Rhs[0].(*ast.CallExpr)
+	}
+	if after == nil || c.Text(after.Fun) != "time.AfterFunc" || len(after.Args) != 2 {
+		return "", fmt.Errorf("schedule does not end in `t.timer = time.AfterFunc(d, f)`")
+	}
+	if _, isLit := after.Args[1].(*ast.FuncLit); !isLit {
+		return "", fmt.Errorf("the callback of time.AfterFunc is not a function literal")
+	}
+	e := &xtArith{c: c, path: "true",
+		vars:  map[string]string{"t.d": "d", "t.jitter": "jitter", "math.MaxInt64": "maxInt64"},
+		types: map[string]xtTy{"t.d": xtI64, "t.jitter": xtI64, "math.MaxInt64": xtConst}}
+	var lets []string
+	bind := func(name, v string) {
+		e.vars[name] = name
+		lets = append(lets, "let "+name+" := "+v)
+	}
+	for _, st := range body[1 : n-3] {
+		switch x := st.(type) {
+		case *ast.DeclStmt:
+			gd, ok := x.Decl.(*ast.GenDecl)
+			if !ok || gd.Tok != token.VAR || len(gd.Specs) != 1 {
+				return "", fmt.Errorf("unsupported declaration %s", c.Pretty(st))
+			}
+			vs := gd.Specs[0].(*ast.ValueSpec)
+			if len(vs.Names) != 1 || len(vs.Values) != 0 || vs.Type == nil {
+				return "", fmt.Errorf("unsupported declaration %s", c.Pretty(st))
+			}
+			ty, ok := map[string]xtTy{"uint64": xtU64, "int64": xtI64, "time.Duration": xtI64}[c.Text(vs.Type)]
+			if !ok {
+				return "", fmt.Errorf("unsupported type in %s", c.Pretty(st))
+			}
+			e.types[vs.Names[0].Name] = ty
+			bind(vs.Names[0].Name, "(0 : Int)")
+		case *ast.AssignStmt:
+			id, ok := x.Lhs[0].(*ast.Ident)
+			if !ok || len(x.Lhs) != 1 || len(x.Rhs) != 1 || (x.Tok != token.DEFINE && x.Tok != token.ASSIGN) {
+				return "", fmt.Errorf("unsupported assignment %s", c.Pretty(st))
+			}
+			v, t, err := e.tr(x.Rhs[0])
+			if err != nil {
+				return "", err
+			}
+			if t == xtBool {
+				return "", fmt.Errorf("bool variable in %s", c.Pretty(st))
+			}
+			if x.Tok == token.DEFINE {
+				if t == xtConst {
+					t = xtI64 // an untyped integer constant defaults to int
+				}
+				e.types[id.Name] = t
+			} else if want, declared := e.types[id.Name]; !declared || (t != want && t != xtConst) {
+				return "", fmt.Errorf("%s: %s assigned to %s", c.Pretty(st), t, id.Name)
+			}
+			bind(id.Name, v)
+		case *ast.IfStmt:
+			if x.Init != nil {
+				return "", fmt.Errorf("if with init unsupported")
+			}
+			cnd, t, err := e.tr(x.Cond)
+			if err != nil {
+				return "", err
+			}
+			if t != xtBool {
+				return "", fmt.Errorf("non-bool condition %s", c.Pretty(x.Cond))
+			}
+			pathThen, pathElse := cnd, "(!"+cnd+")"
+			if e.path != "true" {
+				return "", fmt.Errorf("nested if unsupported")
+			}
+			v1, e1, err := e.branch(x.Body.List, pathThen)
+			if err != nil {
+				return "", err
+			}
+			if x.Else == nil {
+				bind(v1, "if "+cnd+" then "+e1+" else "+v1)
+				continue
+			}
+			eb, ok := x.Else.(*ast.BlockStmt)
+			if !ok {
+				return "", fmt.Errorf("else-if unsupported")
+			}
+			v2, e2, err := e.branch(eb.List, pathElse)
+			if err != nil {
+				return "", err
+			}
+			if v1 != v2 {
+				return "", fmt.Errorf("the two branches assign different variables (%s, %s)", v1, v2)
+			}
+			bind(v1, "if "+cnd+" then "+e1+" else "+e2)
+		default:
+			return "", fmt.Errorf("unsupported statement in schedule's arithmetic: %s", c.Pretty(st))
+		}
+	}
+	res, t, err := e.tr(after.Args[0])
+	if err != nil {
+		return "", err
+	}
+	if t != xtI64 {
+		return "", fmt.Errorf("argument of time.AfterFunc is %s", t)
+	}
+	// every call of math/rand in schedule (outside the closure) must be one that was recognised
+	nRand := 0
+	ast.Inspect(fd.Body, func(x ast.Node) bool {
+		if _, isLit := x.(*ast.FuncLit); isLit {
+			return false
+		}
+		if ce, ok := x.(*ast.CallExpr); ok && strings.HasPrefix(c.Text(ce.Fun), "rand.") {
+			nRand++
+		}
+		return true
+	})
+	if nRand != len(e.randCalls) {
+		return "", fmt.Errorf("schedule calls math/rand %d times, %d of them in a recognised position", nRand, len(e.randCalls))
+	}
+	or := func(v, dflt string) string {
+		if v == "" {
+			return dflt
+		}
+		return v
+	}
+	var b strings.Builder
+	fmt.Fprintf(&b, "/-- condition (on the path through `schedule`) under which `rand.Int63n` is called; `false`: never -/\ndef schedUsesInt63n (jitter : Int) : Bool := %s\n\n", or(e.int63nPath, "false"))
+	fmt.Fprintf(&b, "/-- the argument of `rand.Int63n` (int64 arithmetic) -/\ndef schedRandBound (jitter : Int) : Int := %s\n\n", or(e.int63nBound, "(1 : Int)"))
+	fmt.Fprintf(&b, "/-- condition under which the value is drawn by the loop `for r = rand.Uint64(); <schedRejects>; r = rand.Uint64() {}`; `false`: there is no such loop -/\ndef schedUsesUint64 (jitter : Int) : Bool := %s\n\n", or(e.uint64Path, "false"))
+	fmt.Fprintf(&b, "/-- condition of that loop: the value `r` just drawn is thrown away and another one is drawn (uint64 arithmetic) -/\ndef schedRejects (jitter : Int) (r : Int) : Bool := %s\n\n", or(e.rejects, "false"))
+	fmt.Fprintf(&b, "/-- the duration `%s` handed to `time.AfterFunc`, as a function of `t.d`, `t.jitter` and the value `rho`\ndelivered by the random source (result of `rand.Int63n` / accepted result of `rand.Uint64`): the statements of\n`schedule` between `t.timer.Stop()` and `t.gen++` with Go's int64 / uint64 arithmetic -/\ndef schedNext (d : Int) (jitter : Int) (rho : Int) : Int :=\n", c.Pretty(after.Args[0]))
+	for _, l := range lets {
+		b.WriteString("  " + l + "\n")
+	}
+	b.WriteString("  " + res + "\n\n")
+	q := make([]string, len(e.randCalls))
+	for i, x := range e.randCalls {
+		q[i] = leanString(x)
+	}
+	fmt.Fprintf(&b, "/-- the calls of math/rand in `schedule`, in source order (each in a recognised position) -/\ndef schedRandCalls : List String := [%s]\n", strings.Join(q, ", "))
+	return b.String(), nil
 }
 
 func init() {
@@ -119,7 +488,7 @@ inductive Ret where
 def timeUntil (now deadline : Int) : Int := deadline - now
 /-- rand.Int63n(n) returned r; the model demands 0 < n (else panic) and 0 ≤ r < n. -/
 def int63n (r n : Int) : Int := r
-/-- time.Duration(x) / int64(x): the same integer. -/
+/-- time.Duration(x) / int64(x) in SleepContext and the validation guards: the same integer (no arithmetic there). -/
 def conv (x : Int) : Int := x
 `, nil
 		}},
@@ -147,31 +516,13 @@ def conv (x : Int) : Int := x
 		Site{Module: mod, Pkg: pkg, Func: "JitterTicker.Reset", Name: "resetStmts", Kind: StmtList},
 		// schedule
 		Site{Module: mod, Pkg: pkg, Func: "JitterTicker.schedule", Name: "schedStopsOld", Kind: Present, Sel: "if[0].body", Text: "t.timer.Stop()"},
-		e("JitterTicker.schedule", "schedRandBound", "call[rand.Int63n][0].arg[0]", "Int", []Param{{"jitter", "Int"}}, tv),
-		e("JitterTicker.schedule", "schedNext", "assign[next][0].rhs", "Int", []Param{{"d", "Int"}, {"jitter", "Int"}, {"r", "Int"}}, tv),
-		Site{Module: mod, Pkg: pkg, Func: "JitterTicker.schedule", Name: "schedRandCalls", Kind: Custom, Custom: func(c *Ctx, s *Site) (string, error) {
-			fd, err := c.FindFunc(s.Pkg, s.Func)
-			if err != nil {
-				return "", err
-			}
-			n := 0
-			ast.Inspect(fd.Body, func(x ast.Node) bool {
-				if ce, ok := x.(*ast.CallExpr); ok && strings.HasPrefix(c.Text(ce.Fun), "rand.") {
-					n++
-				}
-				return true
-			})
-			return fmt.Sprintf("/-- number of `rand.*` calls in `schedule` -/\ndef %s : Nat := %d\n", s.Name, n), nil
-		}},
+		Site{Module: mod, Pkg: pkg, Func: "JitterTicker.schedule", Name: "schedNext", Kind: Custom, Custom: xtimeSchedArith},
 		Site{Module: mod, Pkg: pkg, Func: "JitterTicker.schedule", Name: "schedBumpsGen", Kind: Count, Text: "t.gen++"},
 		Site{Module: mod, Pkg: pkg, Func: "JitterTicker.schedule", Name: "schedCapturesGen", Kind: Custom,
 			Custom: xtimeBracket("", "t.gen++", "gen := t.gen")},
-		e("JitterTicker.schedule", "schedTimerDur", "call[time.AfterFunc][0].arg[0]", "Int", []Param{{"next", "Int"}}, tv),
 		// the timer callback
 		e("JitterTicker.schedule", "cbGenOk", "funclit[0].body/if[0].cond", "Bool", []Param{{"tgen", "Int"}, {"gen", "Int"}}, tv),
 		Site{Module: mod, Pkg: pkg, Func: "JitterTicker.schedule", Name: "cbSelect", Kind: Select, Sel: "funclit[0].body/if[0].body/select[0]"},
-		Site{Module: mod, Pkg: pkg, Func: "JitterTicker.schedule", Name: "cbLocked", Kind: Custom,
-			Custom: xtimeBracket("funclit[0].body", "t.m.Lock()", "t.m.Unlock()", "t.c <- time.Now()", "t.schedule()")},
 		Site{Module: mod, Pkg: pkg, Func: "JitterTicker.schedule", Name: "cbStmts", Kind: StmtList, Sel: "funclit[0].body"},
 		// Stop
 		Site{Module: mod, Pkg: pkg, Func: "JitterTicker.Stop", Name: "stopStopsTimer", Kind: Present, Text: "t.timer.Stop()"},
